@@ -403,8 +403,8 @@ impl Sim {
         }
         self.obs.inc("client_frame_checks");
         let mut errs: Vec<(Vec<&'static str>, String)> = vec![];
-        let vis_rec = &self.vis_rec;
-        let explicit = |e: &Entity| vis_rec.contains_key(&(ci, *e));
+        let ever_explicit = &self.ever_explicit;
+        let explicit = |e: &Entity| ever_explicit.contains(&(ci, *e));
         let c = &mut self.clients[ci];
         let u = c.app.world().resource::<ServerUpdateTick>().get();
         if u < c.last_update_tick {
@@ -469,6 +469,10 @@ impl Sim {
                     }
                     if missing.iter().chain(extra.iter()).any(|e| c.pre.iter().any(|(se, _, _)| se == e)) {
                         props.push("C16");
+                    }
+                    if !missing.is_empty() && c.joined_late {
+                        // "from the tick it becomes authorized it is sent the complete state visible to it"
+                        props.push("C07");
                     }
                     errs.push((props, format!("client{ci} structure at update tick {u}: missing {missing:?} extra {extra:?}")));
                 }
@@ -577,6 +581,14 @@ impl Sim {
                         vec!["C12"],
                         format!("client{ci}: tick {t} reported as fully received with {deliv} of {sent} mutate messages delivered"),
                     ));
+                }
+                if let Some(reqs) = c.delivered_reqs.get(&t) {
+                    if let Some(r) = reqs.iter().find(|r| **r > u) {
+                        errs.push((
+                            vec!["C12"],
+                            format!("client{ci}: tick {t} reported as fully received while one of its mutate messages still waits for update tick {r} (client is at {u}) and has not been applied"),
+                        ));
+                    }
                 }
                 if !c.app.world().resource::<ServerMutateTicks>().contains(RepliconTick::new(t)) {
                     errs.push((vec!["C12"], format!("client{ci}: tick {t} reported as received but ServerMutateTicks::contains says no")));
@@ -1019,8 +1031,8 @@ impl Sim {
             }
             let mut errs: Vec<(Vec<&'static str>, String)> = vec![];
             let mut known = vec![];
-            let vis_rec = &self.vis_rec;
-            let explicit = |e: &Entity| vis_rec.contains_key(&(ci, *e));
+            let ever_explicit = &self.ever_explicit;
+            let explicit = |e: &Entity| ever_explicit.contains(&(ci, *e));
             let c = &mut self.clients[ci];
             let map = c.app.world().resource::<ServerEntityMap>();
             let to_client: BTreeMap<Entity, Entity> = map.to_client().iter().map(|(a, b)| (*a, *b)).collect();
@@ -1041,6 +1053,8 @@ impl Sim {
                 }
                 if mismatch {
                     props = vec!["C07"];
+                } else if !missing.is_empty() && c.joined_late {
+                    props.push("C07");
                 }
                 errs.push((props, format!("client{ci} at quiescence (tick {tick_now}): missing {missing:?} extra {extra:?}")));
             }
